@@ -108,6 +108,10 @@ def run_case(case, want_trace=False):
         net.at(t_start, start)
         if case.get("noise") is not None:
             net.at(t_start + case["noise"], start_noise)
+        if case.get("other_error") is not None:
+            # a transport error reported for *another* endpoint must leave this exchange's schedule alone
+            net.at(t_start + case["other_error"], net.inject_error, client, other.addr)
+            labels.append("error-for-other-endpoint")
         max_wait = AT * ARF * (2 ** (MR + 1) - 1)
         net.run_until(t_start + max_wait + AT * ARF * 2 + 300)
 
@@ -310,6 +314,8 @@ def _random_case(draw):
         case["noise"] = draw(st.sampled_from([0.0, 0.01, 1.0, 3.0]))
     if draw(st.integers(0, 3)) == 0:
         case["mid0"] = draw(st.sampled_from([0, 0xFFFF, 0xFFFE, 1]))
+    if draw(st.integers(0, 3)) == 0:
+        case["other_error"] = draw(st.sampled_from([0.0005, 0.04, 0.4, 1.0, 3.0]))
     if draw(st.integers(0, 2)) == 0:
         case.setdefault("mid0", draw(st.sampled_from([0x1234, 0xFFFF, 0])))
         case["prelude"] = draw(st.lists(st.fixed_dictionaries({"kind": st.sampled_from(["ping", "stray_ack", "stray_rst", "request", "non_request"]), "mid": st.sampled_from(["same", "same", "other"]), "dt": st.sampled_from([0.5, 0.2, 0.01])}), min_size=1, max_size=2))
